@@ -10,6 +10,8 @@ from props import redeem_common as rc
 PROP = "C08"
 LEVEL = "proof"
 IMPORTS = ["Ty.Ty", "Core.Prog", "Redeem.Finalize", "Redeem.Run"]
+IMPORTS_FULL = ["Ty.Ty", "Core.Prog", "Redeem.Finalize", "Redeem.Run", "Redeem.RunIhr"]
+FULL_MAX_NODES = 90      # the end-to-end model (SHA-256 identity roots in Coq) is evaluated on programs up to this size
 
 CLAUSES = ["prune", "cmr_eq", "exec_pruned", "out_eq", "reprune", "alltyped", "c_pruned", "c_unpruned", "selfdec",
            "c_cmr_eq", "principal"]
@@ -44,6 +46,35 @@ def model_expr(c, full):
                                          "; ".join(rc.nat_list(rd) for rd in rounds))
 
 
+def full_expr(c, jet_idx):
+    m = c.meta
+    lockh, final, lt = rc.env_params(m["env"])
+    jm = "; ".join("(%d, %d)" % (rc.JETS[name][0], jet_idx[name]) for name in sorted(rc.JETS))
+    return "run_c08_full %d %d %d %s [%s]" % (lockh, final, lt, rc.tprog_coq(m["prog"], m["arrows"]), jm)
+
+
+def project_full(r):
+    """what Redeem/RunIhr.v run_c08_full prints, from the harness output"""
+    d = rc.parse_c08(r)
+    if d is None:
+        return r
+    if d["stage"] in (1, 2):
+        return [d["stage"], d["code"]]
+    if not d.get("complete"):
+        return r
+    n = len(d[50])
+    out = [0, 58, 0, 56, len(d[56])]
+    for rd in d["rounds"]:
+        out += [x if x < n else i for i, x in enumerate(rd)]
+    out += [55, n] + list(d[55]) + [54, len(d[54])]
+    for (i, a, b) in d[54]:
+        out += [i] + pg.ty_nums(a) + pg.ty_nums(b)
+    out += [53, len(d[53])]
+    for (i, _typed, bits) in d[53]:
+        out += [i, len(bits)] + list(bits)
+    return out
+
+
 def uses_env(prog):
     return any(n[0] == "jet" and n[2] in ("tx_lock_height", "check_lock_height", "tx_is_final", "lock_time") for n in prog)
 
@@ -74,6 +105,11 @@ def gen_cases(rng, tier, binary, workdir):
         p = rc.gen_structure(r, depth, opts)
         if len(p) <= 160:
             structs.append((k, p))
+    # the shape of finding F-C08 with a witness under the shared node: re-typing must shrink the witness
+    nsh = 30 if tier == "quick" else 400
+    for k in range(nsh):
+        structs.append((100000 + k, rc.gen_shared_witness(rng.fork("sh%d" % k))))
+    stats["shared_witness_structures"] = nsh
     arrows = rc.get_arrows(binary, [p for _k, p in structs], workdir)
     for (k, p), ar in zip(structs, arrows):
         stats["generated"] += 1
@@ -271,16 +307,26 @@ def finding_match(c, r, cls):
 
 # ------------------------------------------------------------ driver
 def run(rep, tier, rng):
-    vplib.proof_stage(rep, "Props/C08.v", extra_targets=["Redeem/Run.vo"], translators=())
+    vplib.proof_stage(rep, "Props/C08.v", extra_targets=["Redeem/Run.vo", "Redeem/RunIhr.vo"],
+                      translators=("xlate_consts.py", "xlate_ivs.py"))
     rep.coverage["trusted_base"] = vplib.GENERIC_TRUSTED + [
         "models Redeem/Finalize.v, Redeem/PruneProg.v written by hand from node/redeem.rs (prune_with_tracker: Pruner, "
         "Finalizer), node/mod.rs (convert, Hide), bit_machine/tracker.rs (SetTracker) and bit_machine/mod.rs (what a run executes)",
-        "Redeem/PruneFix.v models RedeemNode::prune as rounds of the one-pass function; the stop test of the loop (equal "
-        "serialisations) is not modelled: the number of rounds and the identity classes (which nodes have the same IHR) of the "
-        "program each round starts from are read from the implementation (replayed with prune_with_tracker) and handed to the model",
-        "pruning is modelled structurally; type inference after pruning is not modelled: Redeem/Retype.v proves that ANY typing of "
-        "the pruned structure with shrunk witnesses runs like the original (evaluation commutes with Value::prune); that Rust's "
-        "re-inferred arrows are the least ones and below the originals is compared on the implementation only",
+        "Redeem/PruneFix.v (first model, run_c08) models RedeemNode::prune as rounds of the one-pass function with the number of "
+        "rounds and the identity classes of every round read from the implementation (replayed with prune_with_tracker).  "
+        "Redeem/PruneLoop.v + PruneIhr.v (second model, run_c08_full) model the loop itself: classes = equal IHR computed in Coq "
+        "(Merkle/Ihr.v, SHA-256 on Uint63 primitives, constants regenerated by tools/xlate_ivs.py), one pass re-infers over the "
+        "nodes it was given, stop test = equal structure, equal sharing classes and equal zero-padded witness stream in "
+        "post-order; C08_prune_full_sound is proved for this loop with arbitrary classes/hashes.  Not modelled: the bit-level "
+        "program encoding inside the stop test (C01's subject)",
+        "re-typing after pruning: Redeem/RetypeInfer.v defines the re-inferred arrows as the result of C04's reference inference "
+        "(Infer.infer) on the retained nodes of the pruned table and proves from infer_sound/complete/least that they exist, are "
+        "principal and lie below the original arrows; Redeem/RetypeEnd.v composes this with `evaluation commutes with Value::prune` "
+        "(Redeem/Retype.v).  That Rust's union-find inference computes the reference result is C04's correspondence; here the "
+        "re-inferred arrows and shrunk witnesses of the pruned program are in addition compared with the model on every case",
+        "Redeem/CoreBridge.v + MachineEnd.v: the table semantics of this family (with traces) is proved equal to Core/Sem.v's "
+        "big-step semantics on the unfolded term and composed with C05's exec_correct: statements about the Bit Machine MODEL "
+        "(Core/Machine.v), which C05 ties to bit_machine/mod.rs by its own correspondence",
         "hashes are abstract functions; jets are a Section variable (typing hypothesis in Retype.v), 16 jets instantiated in "
         "Redeem/Run.v and in the python reference (tools/props/redeem_common.py)",
         "libsimplicity (C) is an oracle: its anti-DoS verdict on the serialised programs is compared, not modelled",
@@ -289,8 +335,10 @@ def run(rep, tier, rng):
     rep.coverage["refuted_lemmas"] = ["C08_all_executed_twins_refuted", "C08_one_pass_refuted_twins",
                                       "C08_one_pass_types_not_principal (all three: one pruning pass, the code before commits "
                                       "5d14513/edace38; the fixed-point loop is covered by C08_fixpoint_all_executed)"]
-    rep.coverage["statements_not_proved"] = ["C08_retype_le_statement (the re-inferred arrows are the least typing and lie below "
-                                             "the original ones: principality of inference, C04; compared on every case)"]
+    rep.coverage["statements_not_proved"] = []
+    rep.coverage["statements_settled"] = ["C08_retype_le_statement: proved for the reference inference (C08_retype_le, "
+                                          "C08_retype_le_reference); as written in phase 1 it quantified over an arbitrary "
+                                          "inference function and is false in that form (C08_retype_le_statement_too_strong)"]
     binary = rc.harness_binary()
     cases, stats = gen_cases(rng, tier, binary, rep.workdir())
     import time
@@ -308,9 +356,49 @@ def run(rep, tier, rng):
         raise vplib.Infra("model evaluation failed in Coq:\n" + bad[0][-3000:])
     model = {c.cid: v for c, v in zip(cases, vals) if v is not None}
     impl = {c.cid: rc.project_c08(full.get(c.cid)) for c in cases}
+    # second model: RedeemNode::prune end to end (identity classes of every round computed in Coq with SHA-256,
+    # re-inference by the reference of C04, witness shrinking), on the programs that are small enough
+    jet_idx = {name: idx for idx, name, _s, _t in pg.jet_list(binary, "e", rep.workdir())}
+    max_nodes = 64 if tier == "quick" else FULL_MAX_NODES
+    sample = [c for k, c in enumerate(cases) if len(c.meta["prog"]) <= max_nodes
+              and (tier != "quick" or c.cid.startswith("g1000") or c.cid.startswith("corpus") or k % 2 == 0)]
+    if len(sample) > 2500:      # thorough tier: bound the evaluation time; corpus and shared-witness cases first
+        first = [c for c in sample if c.cid.startswith("g1000") or c.cid.startswith("corpus")]
+        rest = [c for c in sample if not (c.cid.startswith("g1000") or c.cid.startswith("corpus"))]
+        sample = (first + rest[::max(1, len(rest) // max(1, 2500 - len(first)))])[:2500]
+    vals2, logs2 = vplib.coq_eval(IMPORTS_FULL, [full_expr(c, jet_idx) for c in sample], workdir=rep.workdir(), tag="c08f",
+                                  batch=max(8, min(60, (len(sample) + 15) // 16)))
+    t3 = time.time()
+    bad2 = [l for l in logs2 if l]
+    if bad2:
+        raise vplib.Infra("evaluation of the end-to-end model failed in Coq:\n" + bad2[0][-3000:])
+    rounds_total = rounds_recomputed = 0
+    for c in cases:
+        d = rc.parse_c08(full.get(c.cid))
+        if d and d.get("stage") == 0 and d.get("rounds"):
+            rounds_total += len(d["rounds"])
+    for c, v in zip(sample, vals2):
+        if v is None or c.cid not in model:
+            continue
+        d = rc.parse_c08(full.get(c.cid))
+        if d and d.get("stage") == 0 and d.get("rounds"):
+            rounds_recomputed += len(d["rounds"])
+        model[c.cid] = list(model[c.cid]) + [777] + list(v)
+        impl[c.cid] = list(impl[c.cid]) + [777] + list(project_full(full.get(c.cid)))
     cor = rep.coverage.setdefault("correspondence", {})
     cor["impl_eval_s"] = round(t1 - t0, 2)
     cor["model_eval_s"] = round(t2 - t1, 2)
+    cor["end_to_end_model_eval_s"] = round(t3 - t2, 2)
+    cor["end_to_end_model"] = {
+        "what": "Redeem/RunIhr.v run_c08_full: the rounds of RedeemNode::prune with the identity classes of every round "
+                "COMPUTED in Coq (Merkle/Ihr.v + SHA-256, real commitment roots for the hidden sides), types re-inferred by "
+                "Infer.infer over the nodes the pass saw, witnesses shrunk; compared: classes of every round, final structure, "
+                "final arrows of every retained node, final witness bits",
+        "cases": len(sample), "of": len(cases), "rule": "programs with at most %d nodes%s" % (max_nodes, " (quick tier: every corpus and shared-witness case, every second "
+                                                                "other case)" if tier == "quick" else ""),
+        "rounds_recomputed": rounds_recomputed, "rounds_total": rounds_total,
+        "fraction_of_rounds_recomputed": round(rounds_recomputed / rounds_total, 3) if rounds_total else None,
+    }
 
     def pc(c, _r):
         return check_full(c, full.get(c.cid))
@@ -377,5 +465,9 @@ def replay(obj):
     print("implementation:", r)
     print("projected     :", rc.project_c08(r))
     print("model         :", vals[0] if vals else logs)
+    jet_idx = {name: idx for idx, name, _s, _t in pg.jet_list(binary, "e", wd)}
+    vals2, logs2 = vplib.coq_eval(IMPORTS_FULL, [full_expr(case, jet_idx)], workdir=wd, tag="replayf")
+    print("projected (end-to-end model):", project_full(r))
+    print("end-to-end model            :", vals2[0] if vals2 else logs2)
     print("property      :", check_full(case, r))
     return 0
